@@ -223,7 +223,7 @@ def classify_reject(rj):
         kinds = {exp[0]} | ({act[0]} if act else set())
         if act and act[0].startswith('oob'):
             return 'oob'
-        if kinds & {'tval', 'call'}:
+        if kinds & {'tval', 'call', 'dcall', 'ilist'}:
             return 'functor'
         if kinds & {'synerr', 'unexp'}:
             return 'report'
@@ -243,7 +243,7 @@ def trace_violation(e, rj, cls):
         'summary': {'grammar': e.gid, 'rules': ['%s -> %s%s' % (l, ' '.join(r) or 'eps', ' [%d]' % p if p else '') for (l, r, p) in e.g.rules],
                     'input': bytes(t['bytes']).decode('latin-1'), 'options': {'verbose': t['verbose'], 'ws': t['ws'], 'nl': t['nl'], 'stream': t['stream']},
                     'class': cls, 'spec_expected': rj['why'], 'real_event': evs[pos - 1] if 0 < pos <= len(evs) else None, 'real_ok': t['ok']},
-        'kind': 'parser', 'gname': e.g.name, 'mode': e.mode, 'gid': e.gid,
+        'kind': 'parser', 'gname': e.g.name, 'mode': e.mode, 'gid': e.gid, 'dflt': list(getattr(e, 'dflt', ())), 'lexterms': getattr(e, 'lexterms', None),
         'grammar': {'nts': e.g.nts, 'ts': e.g.ts, 'root': e.g.root, 'rules': e.g.rules, 'tprec': e.g.tprec, 'tassoc': e.g.tassoc},
         'bytes': t['bytes'], 'ws': t['ws'], 'nl': t['nl'], 'verbose': t['verbose'], 'stream': t['stream'], 'buf': t['buf']}
 
@@ -282,6 +282,19 @@ def ws_inputs(g, L, extra, cap, rng=None):
     return res
 
 
+def byte_sweep(e, buf=0, verbose=False, tag='bs'):
+    """every byte value 0..255 alone, after a term and before a term, under both whitespace settings: byte classes
+    (whitespace sets, NUL, sign extension of bytes >= 0x80) are part of 'all inputs'"""
+    ts = [ord(t) for t in e.g.ts] if e.g.ts else [ord('a')]
+    t0 = ts[0]
+    ins = []
+    for b in range(256):
+        ins += [[b], [t0, b], [b, t0], [t0, b, t0]]
+    pipeline.add_jobs(e, ins, buf=buf, verbose=verbose, ws=1, nl=1, tag=tag + 'a')
+    pipeline.add_jobs(e, ins[::2], buf=buf, verbose=verbose, ws=1, nl=0, tag=tag + 'b')
+    pipeline.add_jobs(e, ins[1::4], buf=buf, verbose=verbose, ws=0, nl=1, tag=tag + 'c')
+
+
 def std_assumptions():
     return ['TLC + CommunityModules JSON reader', 'line classifier tools/traces.py (pattern only, one event per printed line)',
             'bounded inputs (length bound and samples recorded under coverage.bounds)']
@@ -295,6 +308,14 @@ def check_C02(tier, seed):
     entries = []
     for g in catalogue('lr1') + catalogue('sr'):
         entries += entries_for(g)
+    # rules WITHOUT a functor: the left-side value is constructed from the right-side values (all / every other / random rules)
+    for gi, g in enumerate(catalogue('lr1')):
+        if tier == 'quick' and gi % 2:
+            continue
+        n = len(g.rules)
+        for vi, dset in enumerate([set(range(n)), set(range(0, n, 2)), {i for i in range(n) if rng.random() < 0.5}]):
+            if dset and (tier != 'quick' or vi == gi % 3):
+                entries.append(pipeline.gen_entry(g, gid='%s@dflt%d' % (g.name, vi), dflt=sorted(dset)))
     nrand = 30 if tier == 'quick' else 300
     for i in range(nrand):
         g = gengram.random_grammar(rng, 'r%d_%d' % (seed, i), n_nt=rng.choice([2, 3, 4]), n_t=rng.choice([2, 3]), max_rhs=3, p_empty=0.25)
@@ -312,7 +333,7 @@ def check_C02(tier, seed):
         raise Infra('the specification itself fails its oracles: ' + json.dumps(res.design_errors)[:3000])
     # domain: no reduce/reduce conflict (behaviour undefined there); S/R grammars are in (the tree is then the resolved one)
     domain = {e.gid for e in entries if e.gid in res.conflicts and res.conflicts[e.gid]['rr'] == 0}
-    judge_traces(out, entries, res, {'functor', 'tree', 'extra:call', 'extra:tval', 'threw'}, domain)
+    judge_traces(out, entries, res, {'functor', 'tree', 'extra:call', 'extra:tval', 'extra:dcall', 'extra:ilist', 'threw'}, domain)
     accepted = sum(1 for e in entries for t in e.traces if t['ok'])
     out.coverage = base_coverage(res, {
         'grammars': len(entries), 'grammars_in_domain': len(domain), 'accepted_inputs_validated': accepted,
@@ -338,8 +359,10 @@ def check_C09(tier, seed):
             entries.append(pipeline.host_entry(g, 0))
         except ValueError:
             pass
-    unknown = [ord('?'), 32]
-    for e in entries:
+    unknown = [ord('?'), 32, 0]
+    for ei, e in enumerate(entries):
+        if ei % (7 if tier == 'quick' else 2) == 0:
+            byte_sweep(e)
         ins = ws_inputs(e.g, L if len(e.g.ts) <= 3 else L - 1, unknown, 600 if tier == 'quick' else 4000)
         pipeline.add_jobs(e, ins, verbose=False)
         pipeline.add_jobs(e, ins[::3], verbose=True)
@@ -348,7 +371,7 @@ def check_C09(tier, seed):
                 m = list(s); m[rng.randrange(len(m))] = rng.choice([ord(c) for c in e.g.ts] + [ord('?')])
                 pipeline.add_jobs(e, [m], tag='m', verbose=False)
                 pipeline.add_jobs(e, [s[:rng.randrange(len(s))]], tag='p', verbose=False)
-    res, work = prun.run(entries, 'C09', design_L=L if tier == 'quick' else 5, design_ws=unknown, do_product=True,
+    res, work = prun.run(entries, 'C09', design_L=L if tier == 'quick' else 5, design_ws=unknown[:2], do_product=True,
                          tlc_procs=4 if tier == 'quick' else 8, tlc_workers=4 if tier == 'quick' else 2)
     if res.design_errors:
         raise Infra('the specification itself fails its oracles: ' + json.dumps(res.design_errors)[:3000])
@@ -392,6 +415,8 @@ def check_C10(tier, seed):
             for _ in range(rng.choice([0, 1, 2])):
                 lay.append(rng.choice([32, 10]))
             pipeline.add_jobs(e, [lay], tag='lay', verbose=bool(rng.getrandbits(1)), ws=1, nl=rng.choice([0, 1, 1]))
+    for e in entries[:3 if tier == 'quick' else 8]:
+        byte_sweep(e, verbose=True)
     res, work = prun.run(entries, 'C10', design_L=None, do_product=False, tlc_procs=4 if tier == 'quick' else 8, tlc_workers=4 if tier == 'quick' else 2)
     domain = {e.gid for e in entries}
     judge_traces(out, entries, res, {'position'}, domain)
@@ -1023,6 +1048,8 @@ def check_C06(tier, seed):
         for _ in range(6 if tier == 'quick' else 40):                    # raw byte fuzz
             n = rng.randint(1, 60)
             pipeline.add_jobs(e, [[rng.choice(odd + [ord(c) for c in e.g.ts] * 3) for _ in range(n)]], buf=3, verbose=bool(rng.getrandbits(1)), tag='f')
+    for e in entries[:3 if tier == 'quick' else 10]:
+        byte_sweep(e, buf=3, verbose=False)
     res, work = prun.run(entries, 'C06', design_L=None, do_product=False, tlc_procs=4 if tier == 'quick' else 8, tlc_workers=4 if tier == 'quick' else 2)
     domain = {e.gid for e in entries}
     judge_traces(out, entries, res, {'oob', 'extra:oobread', 'extra:oobiter', 'extra:oobview', 'extra:oob', 'threw', 'partial-line'}, domain)
@@ -1190,11 +1217,13 @@ def replay(pid, path):
     if v.get('kind') == 'parser':
         gd = v['grammar']
         g = gram.Grammar(v['gname'], gd['nts'], gd['ts'], gd['root'], [tuple(r) for r in gd['rules']], gd['tprec'], gd['tassoc'])
-        if v['mode'] == 'gen':
-            e = pipeline.gen_entry(g)
+        if v.get('lexterms'):
+            e = pipeline.lex_entry(v['gname'], [tuple(t) for t in v['lexterms']])
+        elif v['mode'] == 'gen':
+            e = pipeline.gen_entry(g, dflt=v.get('dflt', ()))
         else:
             e = pipeline.host_entry(g, int(v['mode'][4:]))
-        e.jobs = [('%s:replay' % e.gid, 0, 0, 1, int(v['ws']), int(v['nl']), list(v['bytes']))]
+        e.jobs = [('%s:replay' % e.gid, int(v.get('buf', 0)), int(v.get('stream', 0)), int(v.get('verbose', 1)), int(v['ws']), int(v['nl']), list(v['bytes']))]
         res, work = prun.run([e], 'replay', do_product=True)
         rj = res.rejects.get(e.gid, [])
         verd, _ = prun.spec_verdicts([e], [(e.gid, tuple(v['bytes']), bool(v['ws']), bool(v['nl']))], 'replayv')
